@@ -36,7 +36,12 @@ REQUIRED = ['C08.pool_map_schedule_indep', 'C08.ensemble_mean', 'C08.flip_member
             'C08.ensemble_mean_agrees_with_sift_model', 'C08.ensembleSift_agrees_with_sift_model',
             'C08.ensemble_cols_le_cap_classic_sift', 'C08.ensemble_zero_noise_eq_classic_sift',
             'C08.ensemble_zero_noise_eq_getNextImf_sift', 'C08.ensemble_zero_noise_complete',
-            'C08.ceemd_agrees_with_sift_model', 'C08.ceemd_composed_cols_le_cap']
+            'C08.ceemd_agrees_with_sift_model', 'C08.ceemd_composed_cols_le_cap',
+            # the scale law (seeded C08-8 np.isclose shortcut, fix 6e31bea double scaling): the noise amplitude is linear in
+            # the amplitude of the signal at every amplitude, no absolute threshold; ensemble(c.x) = c.ensemble(x)
+            'C08.noise_scale_linear', 'C08.ensemble_member_adds_member_noise', 'C08.ensemble_member_noise_scales',
+            'C08.ensemble_noise_never_negligible', 'C08.ensemble_scale_law', 'C08.ensemble_members_scale',
+            'C08.ceemd_scale_law', 'C08.ensemble_scale_law_classic_sift']
 TRUSTED = [
     'oracle: the classic sift S = the real public emd.sift.sift, tabulated on the signals that were actually sifted in the same run '
     '(lookup by argument within 1e-9)',
@@ -605,7 +610,10 @@ class Ensemble(_Base):
             tbl.append(_msk.vlist(arg))
             tbl += [_msk.vlist(c) for c in cols]
         vecs += [widths] + tbl
-        ops.append(proto.op('ENS', {'n': len(order), 'flip': 1 if flip else 0, 'scale': scale, 'tol': tol, 'p': p}, vecs))
+        # the model forms the noise amplitude itself (Ensemble.noiseScale = std * level; C08.noise_scale_linear,
+        # ensemble_scale_law): it is handed np.std(x) and the requested level, not the product
+        ops.append(proto.op('ENS', {'n': len(order), 'flip': 1 if flip else 0, 'std': float(x.std()), 'level': float(case['level']),
+                                    'tol': tol, 'p': p}, vecs))
         return ops
 
     def compare(self, case, out, results):
@@ -1011,7 +1019,7 @@ class Complete(_Base):
                 tn.append(i)
         for i in tf + tn:
             vecs += [_msk.vlist(S[i]), _msk.vlist(an['first'][i])]
-        return [proto.op('CEEMD', {'n': N, 'flip': 1 if case['mode'] == 'flip' else 0, 'scale': scale,
+        return [proto.op('CEEMD', {'n': N, 'flip': 1 if case['mode'] == 'flip' else 0, 'std': float(x.std()), 'level': float(case['level']),
                                    'tol': _msk.TOL * _amp(x, scale), 'stages': len(an['stages']) - 1,
                                    'nf': len(tf), 'nn': len(tn), 'rot': case['nproc']}, vecs)]
 
